@@ -364,7 +364,8 @@ def run_check(tier, seed):
             h = Fixed(); h.n = n; h.ops = ops; h.lines = ['HIST %s n=%d nr0=0 fmt=1' % (hid, n)] + ops + ['END']; h.kind = 'witness'
             return h
         wit = [fixed('wpw', 2, ['iput 0 1 1 1', 'iput 0 2 1 6', 'waitAll | L 2 | L']),
-               fixed('wvd', 2, ['vardAll | N 4 | N 4'])]
+               fixed('wvd', 2, ['vardAll | N 4 | N 4']),
+               fixed('wfm', 2, ['beginIndep', 'fillRec | 3 | 3', 'endIndep'])]
         witf2 = fixed('wf2', 2, ['putAll | E | V 4'])
         pool = concurrent.futures.ThreadPoolExecutor(max_workers=6)
         futs = []
@@ -382,7 +383,8 @@ def run_check(tier, seed):
         #   zeroPath : the F2 witness returns instead of deadlocking
         #   vardGuard: `vardAll | N 4 | N 4` on an empty file leaves the record count at 0 (unrepaired: 4)
         #   waitScan : waiting for the second of two pending iputs (records 0 and 5) gives 6 records (unrepaired: 0)
-        fz = fv = fw = 0
+        #   fillMode : ncmpi_fill_var_rec in independent data mode is refused (unrepaired: executed)
+        fz = fv = fw = ff = 0
         for hs, (S, H, done) in results:
             if hs[0] is witf2:
                 fz = 0 if H else 1
@@ -393,7 +395,11 @@ def run_check(tier, seed):
                 if h is wit[0]:
                     x = S.get(('wpw', 3, 0))
                     fw = 1 if (x and int(x['nr']) == 6) else 0
-        fx = '%d%d%d' % (fz, fv, fw)
+                if h is wit[2]:
+                    # fillMode: ncmpi_fill_var_rec in independent data mode is refused (NC_EINDEP, no record) or executed (4 records)
+                    x = S.get(('wfm', 2, 0))
+                    ff = 1 if (x and int(x['nr']) == 0) else 0
+        fx = '%d%d%d%d' % (fz, fv, fw, ff)
         allh = hists + wit + f2 + [witf2]
         script = []
         for h in allh:
@@ -405,7 +411,7 @@ def run_check(tier, seed):
                 nev += judge_history(h, S, H, M, V, stats, tie_diffs, distinct)
                 for op in h.ops:
                     dist[op.split()[0]] = dist.get(op.split()[0], 0) + 1
-        log('[S4] %d histories (%d calls evaluated) on %s ranks in %.1fs; model variant (zeroPath, vardGuard, waitScan) = %s' % (len(allh), nev, ns, t1.s(), fx))
+        log('[S4] %d histories (%d calls evaluated) on %s ranks in %.1fs; model variant (zeroPath, vardGuard, waitScan, fillMode) = %s' % (len(allh), nev, ns, t1.s(), fx))
         V.cov['evaluations'] = nev
         V.cov['distinct_nontrivial'] = len(distinct)
         V.cov['traces_validated_against_impl'] = len(allh) - len(set(t[0] for t in tie_diffs))
